@@ -403,6 +403,24 @@ func rvLLVM(lines []string, base string) (d dis, unknownCSR bool) {
 	return
 }
 
+// rvKey names a finding.  Two families share one root cause each and get one
+// key: (1) every F/D instruction takes its registers through regI, so only
+// integer registers are accepted where the ISA has f-registers; (2) the F/D
+// instructions with two operands (FSQRT, FCVT.*, FMV.*, FCLASS) carry a fixed
+// sub-opcode in the rs2 field which the encoder takes from the argument (and
+// the decoder ignores) instead of the table.
+func rvKey(name, slots, aspect string) string {
+	fp := strings.HasPrefix(name, "F") && name != "FENCE"
+	if fp && strings.HasSuffix(aspect, "reg-class") {
+		return "rv/FP/" + aspect
+	}
+	if fp && strings.Count(slots, ",") == 1 && !strings.ContainsAny(slots, "I") &&
+		(strings.HasSuffix(aspect, "op") || aspect == "undecodable") {
+		return "rv/FP-2op/" + aspect
+	}
+	return "rv/" + name + "/" + aspect
+}
+
 // ---------------------------------------------------------------- oracle
 
 func rvLookupAs(name string) (abi.As, bool) {
@@ -493,10 +511,10 @@ func rvCheck(k kase, mode llvmMode) (v verdict) {
 			// verdict needs llvm-mc: report the x/arch view as candidates
 			v.needLLVM = true
 			if rv64on32 {
-				v.cand = append(v.cand, finding{"rv32/" + name + "/rv64-only-accepted", desc})
+				v.cand = append(v.cand, finding{"rv32/RV64-only/accepted", desc})
 			}
 			for _, a := range aspXa {
-				v.cand = append(v.cand, finding{pfx + a, desc})
+				v.cand = append(v.cand, finding{rvKey(name, slots, a), desc})
 			}
 			indep = aspXa
 			goto own
@@ -509,7 +527,7 @@ func rvCheck(k kase, mode llvmMode) (v verdict) {
 				// RV64-only instruction accepted by the RV32 encoder: llvm (riscv32)
 				// rejecting the word confirms it is not an RV32 instruction.
 				if len(lines) == 0 {
-					v.add("rv32/"+name+"/rv64-only-accepted", "%s: %s exists only in RV64 (llvm-mc -triple=riscv32: invalid encoding)", desc, name)
+					v.add("rv32/RV64-only/accepted", "%s: %s exists only in RV64 (llvm-mc -triple=riscv32: invalid encoding); EncodeRV32 does not check XLEN", desc, name)
 				} else {
 					v.note("rv64_only_on_rv32_unconfirmed")
 				}
@@ -527,7 +545,7 @@ func rvCheck(k kase, mode llvmMode) (v verdict) {
 				texts += " | llvm-mc: " + ll.String()
 			}
 			for _, a := range as {
-				v.add(pfx+a, "%s; expected %q, independent decoders: %s", desc, want.String(), texts)
+				v.add(rvKey(name, slots, a), "%s; expected %q, independent decoders: %s", desc, want.String(), texts)
 			}
 		}
 		switch {
@@ -570,7 +588,7 @@ own:
 		// (a wrong operation already reported by the independent decoders is the
 		// encoder's defect, not the decoder's)
 		if !contains(indep, "op") && !contains(indep, "undecodable") {
-			v.add(pfx+"own-decode/op", "%s; riscv.Decode returns %s, want %s", desc, dn, base)
+			v.add(rvKey(name, slots, "own-decode/op"), "%s; riscv.Decode returns %s, want %s", desc, dn, base)
 		}
 		return
 	}
@@ -583,7 +601,7 @@ own:
 		if contains(indep, a) {
 			continue
 		}
-		v.add(pfx+"own-decode/"+a, "%s; riscv.Decode returns %s %s = %q, want %q", desc, dn2(das), rvArgString(spec.slots, *darg), back.String(), want.String())
+		v.add(rvKey(name, slots, "own-decode/"+a), "%s; riscv.Decode returns %s %s = %q, want %q", desc, dn2(das), rvArgString(spec.slots, *darg), back.String(), want.String())
 	}
 	_ = isPseudo
 	return
